@@ -266,8 +266,88 @@ def _totals(ctx) -> None:
                f"returns `{[nun(x.value) for x in r]}`; must be int(self.total_{u}()) (truncation toward zero)", m.loc(fn))
 
 
+def _length_tabulate(ctx) -> None:
+    """LENGTH.tabulated: Interval.__new__ (and the ordering helper it uses) run by the checker's interpreter on standard-library
+    values: naive pairs, date pairs, aware pairs sharing one zoneinfo object inside and around a repeated and a skipped hour
+    (both folds - the standard library compares and subtracts such pairs on their wall clock only), aware pairs in different
+    zones and with fixed offsets, forward and reversed, absolute or not.  The number of seconds handed to the Duration
+    constructor must be the exact elapsed time between the two instants (the difference of the dates for dates), negative
+    for a reversed pair unless absolute; mixed naive / aware and date / datetime pairs are refused."""
+    import datetime as _dt
+    import zoneinfo
+    from ..rules import minieval
+    m = pmod("interval")
+    fn = m.func("Interval.__new__")
+    try:
+        paris, ny = zoneinfo.ZoneInfo("Europe/Paris"), zoneinfo.ZoneInfo("America/New_York")
+    except Exception as e:      # noqa: BLE001
+        ctx.unverified("LENGTH.tabulated", "Interval.__new__", f"no tz database for the standard library's zoneinfo: {e}", m.loc(fn))
+        return
+    D = _dt.datetime
+    utc = _dt.timezone.utc
+
+    def inst(x):
+        return x.astimezone(utc) if x.tzinfo is not None else x
+    aw = [D(2021, 10, 31, 1, 30, tzinfo=paris), D(2021, 10, 31, 2, 30, tzinfo=paris, fold=0), D(2021, 10, 31, 2, 30, tzinfo=paris, fold=1), D(2021, 10, 31, 3, 30, tzinfo=paris),
+          D(2021, 3, 28, 1, 59, 59, 999999, tzinfo=paris), D(2021, 3, 28, 3, 0, tzinfo=paris), D(2021, 3, 28, 12, 0, tzinfo=ny), D(2021, 10, 31, 2, 45, 0, 1, tzinfo=paris, fold=0),
+          D(2021, 10, 31, 0, 30, tzinfo=utc), D(2021, 10, 31, 6, 0, tzinfo=_dt.timezone(_dt.timedelta(hours=5, minutes=30))), D(2021, 11, 7, 1, 30, tzinfo=ny, fold=1), D(2021, 11, 7, 1, 30, tzinfo=ny, fold=0)]
+    nv = [D(2021, 1, 31, 0, 0), D(2021, 3, 1, 12, 30, 15, 250000), D(2020, 2, 29, 23, 59, 59, 999999), D(2020, 2, 29, 23, 59, 59, 999998)]
+    dates = [_dt.date(2021, 1, 31), _dt.date(2021, 3, 1), _dt.date(2020, 2, 29)]
+    bad, n = [], 0
+    try:
+        funcs = {st.name: st for st in m.top() if isinstance(st, ast.FunctionDef)}
+        for group in (aw, nv, dates):
+            for a in group:
+                for b in group:
+                    for absolute in (False, True):
+                        made = []
+
+                        class _Sup:
+                            def __new__(self_, cls_, *a_, **k_):
+                                made.append((a_, k_))
+                                return minieval.Stub(_made=True)
+                        glob = {"datetime": _dt.datetime, "date": _dt.date, "timedelta": _dt.timedelta, "timezone": _dt.timezone, "ValueError": ValueError, "TypeError": TypeError,
+                                "pendulum": minieval.Stub(DateTime=minieval.ClassStub(_new=None, _isa=lambda v: False), Date=minieval.ClassStub(_new=None, _isa=lambda v: False)),
+                                "super": lambda *a_: minieval.Stub(__new__=lambda cls_, *a2, **k2: (made.append((a2, k2)), minieval.Stub(_made=True))[1])}
+                        n += 1
+                        label = f"Interval({a!r}, {b!r}{', absolute=True' if absolute else ''})"
+                        got = minieval.call(fn, [minieval.Stub(_cls="Interval"), a, b, absolute], {}, {**funcs, "$globals": glob})
+                        if not getattr(got, "_made", False) or len(made) != 1 or made[0][0] or set(made[0][1]) - {"seconds", "microseconds", "days"}:
+                            raise core.Unsupported("__new__ does not end in super().__new__(cls, seconds=...)")
+                        k = made[0][1]
+                        secs = _dt.timedelta(days=k.get("days", 0), seconds=k.get("seconds", 0), microseconds=k.get("microseconds", 0))
+                        if isinstance(a, _dt.datetime):
+                            want = inst(b) - inst(a)
+                        else:
+                            want = b - a
+                        if absolute:
+                            want = abs(want)
+                        if secs != want:
+                            bad.append(f"{label}: built with {k} = {secs} (elapsed: {want})")
+        for a, b, exc in ((nv[0], aw[0], "TypeError"), (aw[0], nv[0], "TypeError"), (dates[0], nv[0], "ValueError"), (nv[0], dates[0], "ValueError")):
+            n += 1
+            glob = {"datetime": _dt.datetime, "date": _dt.date, "timedelta": _dt.timedelta, "timezone": _dt.timezone, "ValueError": ValueError, "TypeError": TypeError,
+                    "pendulum": minieval.Stub(DateTime=minieval.ClassStub(_new=None, _isa=lambda v: False), Date=minieval.ClassStub(_new=None, _isa=lambda v: False)),
+                    "super": lambda *a_: minieval.Stub(__new__=lambda cls_, *a2, **k2: minieval.Stub(_made=True))}
+            try:
+                minieval.call(fn, [minieval.Stub(_cls="Interval"), a, b], {}, {**funcs, "$globals": glob})
+                bad.append(f"Interval({a!r}, {b!r}) is accepted; a mixed pair must raise {exc}")
+            except minieval.Raised as e:
+                if e.exc_name != exc:
+                    bad.append(f"Interval({a!r}, {b!r}) raises {e.exc_name} (expected {exc})")
+            except TypeError:
+                if exc != "TypeError":
+                    bad.append(f"Interval({a!r}, {b!r}) raises TypeError (expected {exc})")
+    except (core.Unsupported, KeyError, AttributeError, IndexError, RecursionError, ValueError, TypeError) as e:
+        ctx.unverified("LENGTH.tabulated", "Interval.__new__", f"outside the checker's interpreter: {type(e).__name__}: {e}", m.loc(fn))
+        return
+    ctx.ob("LENGTH.tabulated", "Interval.__new__", not bad, f"{n} pairs evaluated: " + (f"wrong: {bad[:3]}" if bad else
+           "the Duration is built from the exact elapsed time between the two instants"), m.loc(fn))
+
+
 def run(ctx) -> None:
     ctx.explanation = EXPLANATION
+    ctx.step(_length_tabulate, ctx)
     ctx.step(_direction, ctx)
     ctx.step(_instant_order, ctx)
     ctx.step(_interval_new, ctx)
